@@ -24,6 +24,7 @@ import (
 // Job: expand one state. The worker starts a fresh Core, replays Prefix, then applies every op of Ops
 // to that state (an op that changes the running configuration costs a fresh Core + replay for the next op).
 type Job struct {
+	ID       int      `json:"id"` // names the progress file
 	Node     int      `json:"node"`
 	Prefix   []Op     `json:"prefix"`
 	PrefKeys []string `json:"prefKeys"` // implementation state key expected after each prefix op
@@ -641,6 +642,26 @@ func (w *workerState) run(job *Job) *JobResult {
 	}
 	res.NodeKey = pre.key()
 	nodeObs := pre
+	// progress file: what the parent needs to attribute a death of this process to one edit (see main.go)
+	progFn := filepath.Join(w.dir, fmt.Sprintf("progress-%d.jsonl", job.ID))
+	prog, _ := os.Create(progFn)
+	progLine := func(v any) {
+		if prog != nil {
+			b, _ := json.Marshal(v)
+			_, _ = prog.Write(append(b, '\n'))
+		}
+	}
+	progLine(map[string]any{"nodeKey": res.NodeKey, "startKey": res.StartKey})
+	defer func() {
+		if prog != nil {
+			prog.Close()
+			os.Remove(progFn)
+		}
+	}()
+	emit := func(or OpResult, nViolBefore int) {
+		res.Results = append(res.Results, or)
+		progLine(map[string]any{"result": or, "viols": res.Viols[nViolBefore:]})
+	}
 	addViol := func(i int, key, what, detail string) {
 		if job.Taint != "" {
 			// the implementation already left the reference model on this history: everything that follows is
@@ -694,7 +715,7 @@ func (w *workerState) run(job *Job) *JobResult {
 			addViol(i, op.Kind+"/core-terminated", "the Core terminated after "+hist, "")
 			or.Class = op.Kind + "|core-terminated"
 			or.Tainted = true
-			res.Results = append(res.Results, or)
+			emit(or, nViolBefore)
 			l.close()
 			l = nil
 			continue
@@ -794,7 +815,7 @@ func (w *workerState) run(job *Job) *JobResult {
 			outcome = "rejected-invalid"
 		}
 		or.Class = fmt.Sprintf("%s|%s|%s|%s|%s", op.Kind, op.Name, shape, op.Payload, outcome)
-		res.Results = append(res.Results, or)
+		emit(or, nViolBefore)
 
 		switch {
 		case !or.Changed:
@@ -887,6 +908,43 @@ func (w *workerState) undo(l *live, job *Job, op Op, after *Model, nodeKey strin
 		l.tr.CloseIdleConnections()
 	}
 	return hashOf(snapOf(l.p.APIConfigSnapshot())) == nodeKey
+}
+
+// readProgress returns what a dead worker completed of job id: ok is false when the node's state was not reached.
+func readProgress(tmp string, id int) (*JobResult, bool) {
+	files, _ := filepath.Glob(filepath.Join(tmp, "w*", fmt.Sprintf("progress-%d.jsonl", id)))
+	if len(files) == 0 {
+		return nil, false
+	}
+	buf, err := os.ReadFile(files[0])
+	for _, f := range files {
+		os.Remove(f)
+	}
+	if err != nil {
+		return nil, false
+	}
+	res := &JobResult{}
+	ok := false
+	for _, line := range bytes.Split(buf, []byte("\n")) {
+		var l struct {
+			NodeKey  string    `json:"nodeKey"`
+			StartKey string    `json:"startKey"`
+			Result   *OpResult `json:"result"`
+			Viols    []Viol    `json:"viols"`
+		}
+		if json.Unmarshal(line, &l) != nil {
+			continue // the line that was being written
+		}
+		if l.Result == nil {
+			if l.NodeKey != "" {
+				res.NodeKey, res.StartKey, ok = l.NodeKey, l.StartKey, true
+			}
+			continue
+		}
+		res.Results = append(res.Results, *l.Result)
+		res.Viols = append(res.Viols, l.Viols...)
+	}
+	return res, ok
 }
 
 func c12short(s string, n int) string {
